@@ -312,6 +312,11 @@ class _Expr(ast.NodeTransformer):
             if opname == "contains":
                 self.changed = True
                 return _loc(ast.Compare(left=node.args[1], ops=[ast.In()], comparators=[node.args[0]]), node)
+        # E11 `getattr(x, "name")` with a literal identifier is `x.name`
+        if (isinstance(node.func, ast.Name) and node.func.id == "getattr" and len(node.args) == 2 and not node.keywords  # noqa: PLR2004
+                and isinstance(node.args[1], ast.Constant) and isinstance(node.args[1].value, str) and node.args[1].value.isidentifier()):
+            self.changed = True
+            return _loc(ast.Attribute(value=node.args[0], attr=node.args[1].value, ctx=ast.Load()), node)
         # E6 `operator.attrgetter("a")(x)` is `x.a`; methodcaller / itemgetter likewise
         f = node.func
         if isinstance(f, ast.Call) and len(node.args) == 1 and not node.keywords and not f.keywords:
@@ -735,7 +740,7 @@ class Canon:
         """`isinstance(x, NUMBER_TYPES)` / `except ERRORS:` with a module-level tuple of class names, assigned
         once: the tuple is written out, so that every rule reads the classes themselves."""
         table: Dict[str, ast.expr] = getattr(self, "type_tuples", {})
-        if not table:
+        if not table and not getattr(self, "constants", {}) and not getattr(self, "getters", {}):
             return False
         local = NameFacts(fn).stores
         params = {a.arg for a in ast.walk(fn) if isinstance(a, ast.arg)}
@@ -751,7 +756,67 @@ class Canon:
                 if a.id in table and not local.get(a.id) and a.id not in params:
                     n.type = _loc(copy.deepcopy(table[a.id]), a)  # type: ignore[assignment]
                     hit = True
+        getters: Dict[str, ast.Call] = getattr(self, "getters", {})
+        if getters:
+            for n in _own_nodes(fn):
+                if (isinstance(n, ast.Call) and isinstance(n.func, ast.Name) and n.func.id in getters and not local.get(n.func.id)
+                        and n.func.id not in params and len(n.args) == 1 and not n.keywords):
+                    n.func = _loc(copy.deepcopy(getters[n.func.id]), n.func)  # type: ignore[assignment]
+                    hit = True
+        # `x in _NAMES` with a module-level tuple of literals: the names are written out
+        consts: Dict[str, ast.expr] = getattr(self, "constants", {})
+        for n in _own_nodes(fn):
+            if isinstance(n, ast.Compare) and len(n.ops) == 1 and isinstance(n.ops[0], (ast.In, ast.NotIn)):
+                a = n.comparators[0]
+                if (isinstance(a, ast.Name) and a.id in consts and not local.get(a.id) and a.id not in params
+                        and isinstance(consts[a.id], ast.Tuple) and all(isinstance(x, ast.Constant) for x in consts[a.id].elts)):  # type: ignore[attr-defined]
+                    n.comparators[0] = _loc(copy.deepcopy(consts[a.id]), a)
+                    hit = True
         return hit
+
+    _OPERATOR_GETTERS = ("attrgetter", "itemgetter", "methodcaller")
+
+    def _module_level(self, tree: ast.AST, counts: Dict[str, int]) -> None:
+        """The statements of the module body itself: functions of `operator` imported under another name get
+        their own name back, their applications are written out (`attrgetter("a", "b")(ENV)` is `(ENV.a, ENV.b)`),
+        and an unpacking of a display of simple values is one assignment per name."""
+        aliases: Dict[str, str] = {}
+        for st in getattr(tree, "body", []):
+            if isinstance(st, ast.ImportFrom) and st.module == "operator" and not st.level:
+                for a in st.names:
+                    if a.asname and a.asname != a.name and counts.get(a.asname, 0) == 0:
+                        aliases[a.asname] = a.name
+        if aliases:
+            for n in ast.walk(tree):
+                if isinstance(n, ast.Name) and n.id in aliases and isinstance(n.ctx, ast.Load):
+                    n.id = aliases[n.id]
+        body = getattr(tree, "body", None)
+        if not isinstance(body, list):
+            return
+        ex = _Expr()
+        new_body: List[ast.stmt] = []
+        for st in body:
+            if isinstance(st, (ast.Assign, ast.AnnAssign)) and st.value is not None:
+                st.value = ex.visit(st.value)
+            if (isinstance(st, ast.Assign) and len(st.targets) == 1 and isinstance(st.targets[0], ast.Tuple) and isinstance(st.value, ast.Tuple)
+                    and len(st.targets[0].elts) == len(st.value.elts) and all(isinstance(t, ast.Name) for t in st.targets[0].elts)
+                    and all(_simple(v) for v in st.value.elts)
+                    and not ({t.id for t in st.targets[0].elts} & {n.id for v in st.value.elts for n in ast.walk(v) if isinstance(n, ast.Name)})):  # type: ignore[attr-defined]
+                for t, v in zip(st.targets[0].elts, st.value.elts):
+                    new_body.append(_loc(ast.Assign(targets=[t], value=v), st))
+                continue
+            new_body.append(st)
+        body[:] = new_body
+        # module-level getters (`_VALUE_OF = attrgetter("obj")`), assigned once: a call of one is written out
+        self.getters: Dict[str, ast.Call] = {}
+        for st in body:
+            if (isinstance(st, ast.Assign) and len(st.targets) == 1 and isinstance(st.targets[0], ast.Name) and counts.get(st.targets[0].id) == 1
+                    and isinstance(st.value, ast.Call) and not st.value.keywords
+                    and all(isinstance(a, ast.Constant) for a in st.value.args) and st.value.args):
+                f = st.value.func
+                fname = f.id if isinstance(f, ast.Name) else (f.attr if isinstance(f, ast.Attribute) and isinstance(f.value, ast.Name) and f.value.id == "operator" else None)
+                if fname in self._OPERATOR_GETTERS:
+                    self.getters[st.targets[0].id] = st.value
 
     def tree(self, tree: ast.AST) -> None:
         # module-level constant tables (`_SWAPS = (("a", "b"), ("c", "d"))`): a loop over one is a literal loop
@@ -763,18 +828,71 @@ class Canon:
             elif isinstance(n, ast.Global):
                 for g in n.names:
                     counts[g] = counts.get(g, 0) + 2
+        self._module_level(tree, counts)
+        counts = {}
+        for n in ast.walk(tree):
+            if isinstance(n, ast.Name) and isinstance(n.ctx, (ast.Store, ast.Del)):
+                counts[n.id] = counts.get(n.id, 0) + 1
+            elif isinstance(n, ast.Global):
+                for g in n.names:
+                    counts[g] = counts.get(g, 0) + 2
 
         def const_like(x: ast.expr) -> bool:
             # a literal, or a name that is bound at most once in the whole module (a module constant, an import)
             return isinstance(x, ast.Constant) or (isinstance(x, ast.Name) and counts.get(x.id, 0) <= 1)
 
+        def table_item(x: ast.expr, depth: int = 0) -> bool:
+            # rows may hold tuples of their own (`(str, ("str", "string"))`)
+            return const_like(x) or (isinstance(x, (ast.Tuple, ast.List)) and depth < 3 and all(table_item(y, depth + 1) for y in x.elts))  # noqa: PLR2004
+
         for st in getattr(tree, "body", []):
-            if isinstance(st, ast.Assign) and len(st.targets) == 1 and isinstance(st.targets[0], ast.Name) and isinstance(st.value, (ast.Tuple, ast.List)):
-                if counts.get(st.targets[0].id) != 1:
+            tgt0 = val0 = None
+            if isinstance(st, ast.Assign) and len(st.targets) == 1 and isinstance(st.targets[0], ast.Name):
+                tgt0, val0 = st.targets[0].id, st.value
+            elif isinstance(st, ast.AnnAssign) and isinstance(st.target, ast.Name) and st.value is not None:
+                tgt0, val0 = st.target.id, st.value  # `_TABLE: Tuple[...] = (...)`
+            if tgt0 is not None and isinstance(val0, (ast.Tuple, ast.List)):
+                if counts.get(tgt0) != 1:
                     continue
-                if all(const_like(x) or (isinstance(x, (ast.Tuple, ast.List)) and all(const_like(y) for y in x.elts))
-                       for x in st.value.elts):
-                    self.constants[st.targets[0].id] = st.value
+                if all(table_item(x) for x in val0.elts):
+                    self.constants[tgt0] = val0
+        # dispatch tables: dict displays with literal keys at module or class level, assigned once and never
+        # written to (`_COMPARATORS = {"==": lambda env, a, b: env._eq(a, b), ...}`)
+        self.dict_tables: Dict[str, ast.Dict] = {}
+        self.class_dict_tables: Dict[str, Dict[str, ast.Dict]] = {}
+        touched: Set[str] = set()
+        for n in ast.walk(tree):
+            if isinstance(n, (ast.Subscript, ast.Attribute)) and isinstance(n.ctx, (ast.Store, ast.Del)):
+                base_ = n.value
+                touched.add(base_.id if isinstance(base_, ast.Name) else (base_.attr if isinstance(base_, ast.Attribute) else ""))
+                if isinstance(n, ast.Attribute):
+                    touched.add(n.attr)
+            elif isinstance(n, ast.Call) and isinstance(n.func, ast.Attribute) and n.func.attr in (
+                    "update", "pop", "setdefault", "clear", "popitem", "__setitem__", "__delitem__"):
+                base_ = n.func.value
+                touched.add(base_.id if isinstance(base_, ast.Name) else (base_.attr if isinstance(base_, ast.Attribute) else ""))
+
+        def dict_table(val: Optional[ast.expr]) -> bool:
+            return (isinstance(val, ast.Dict) and 1 <= len(val.keys) <= 16 and all(
+                isinstance(k, ast.Constant) and isinstance(k.value, (str, int)) and not isinstance(k.value, bool) for k in val.keys)
+                and len({k.value for k in val.keys}) == len(val.keys))  # type: ignore[union-attr]
+
+        def assigned(st: ast.stmt) -> Tuple[Optional[str], Optional[ast.expr]]:
+            if isinstance(st, ast.Assign) and len(st.targets) == 1 and isinstance(st.targets[0], ast.Name):
+                return st.targets[0].id, st.value
+            if isinstance(st, ast.AnnAssign) and isinstance(st.target, ast.Name) and st.value is not None:
+                return st.target.id, st.value
+            return None, None
+
+        for st in getattr(tree, "body", []):
+            tg, vl = assigned(st)
+            if tg is not None and counts.get(tg) == 1 and tg not in touched and dict_table(vl):
+                self.dict_tables[tg] = vl  # type: ignore[assignment]
+        for c in [x for x in ast.walk(tree) if isinstance(x, ast.ClassDef)]:
+            for st in c.body:
+                tg, vl = assigned(st)
+                if tg is not None and counts.get(tg) == 1 and tg not in touched and dict_table(vl):
+                    self.class_dict_tables.setdefault(c.name, {})[tg] = vl  # type: ignore[assignment]
         # module-level tuples of class names, assigned once (`_NUMBER_TYPES = (int, float, Decimal)`)
         self.type_tuples: Dict[str, ast.expr] = {}
         for st in getattr(tree, "body", []):
@@ -809,6 +927,18 @@ class Canon:
                             or (isinstance(x, ast.Attribute) and _is_path(x)))
 
                 if val.elts and all(item_ok(x) or (isinstance(x, (ast.Tuple, ast.List)) and all(item_ok(y) for y in x.elts)) for x in val.elts):
+                    # a row may name an earlier table of the class body (`("add", _POINTER_VALUE_MEMBERS)`): inside a
+                    # method that bare name means nothing, so the earlier table is written in its place
+                    earlier = self.class_tables.get(c.name, {})
+
+                    class _Earlier(ast.NodeTransformer):
+                        def visit_Name(self, node: ast.Name, earlier=earlier) -> ast.AST:  # type: ignore[no-untyped-def]
+                            if isinstance(node.ctx, ast.Load) and node.id in earlier:
+                                return _loc(copy.deepcopy(earlier[node.id]), node)
+                            return node
+
+                    if earlier and any(isinstance(n, ast.Name) and n.id in earlier for n in ast.walk(val)):
+                        val = _Earlier().visit(copy.deepcopy(val))
                     self.class_tables.setdefault(c.name, {})[tgt] = val
         done_fns: Set[int] = set()
         for c in [x for x in ast.walk(tree) if isinstance(x, ast.ClassDef)]:
@@ -901,6 +1031,9 @@ class Canon:
             r8 = self._unwalrus(s)
             if r8 is not None:
                 return r8, 0
+        r37 = self._dict_dispatch(s, rest)
+        if r37 is not None:
+            return r37
         if isinstance(s, ast.Assign) and len(s.targets) == 1 and isinstance(s.targets[0], ast.Name) and isinstance(s.value, ast.Name) \
                 and s.value.id == s.targets[0].id:
             return [], 0  # `x = x`
@@ -1571,6 +1704,125 @@ class Canon:
         loop = _loc(ast.For(target=ast.Name(id=item, ctx=ast.Store()), iter=it, body=[body], orelse=[], type_comment=None), at)
         return [first, loop]
 
+    # -- S37 dispatch tables
+    def _dict_table_of(self, e: ast.expr) -> Optional[ast.Dict]:
+        if isinstance(e, ast.Name):
+            t = getattr(self, "dict_tables", {}).get(e.id)
+            if t is not None and not NameFacts(self.fn).stores.get(e.id) and e.id not in {a.arg for a in ast.walk(self.fn) if isinstance(a, ast.arg)}:
+                return t
+            return None
+        cls = getattr(self, "current_class", None)
+        if cls is not None and isinstance(e, ast.Attribute) and isinstance(e.value, ast.Name) and e.value.id in ("self", "cls", cls):
+            return getattr(self, "class_dict_tables", {}).get(cls, {}).get(e.attr)
+        return None
+
+    @staticmethod
+    def _apply_entry(stmts: List[ast.stmt], name: str, value: ast.expr) -> Optional[List[ast.stmt]]:
+        """`stmts` with the local `name` standing for the table entry `value`: a lambda entry that is called with
+        simple arguments is its body; any other entry must be simple to be written where the name was."""
+        out = [copy.deepcopy(x) for x in stmts]
+        if isinstance(value, ast.Lambda):
+            la = value.args
+            if la.vararg or la.kwarg or la.kwonlyargs or la.defaults or la.posonlyargs:
+                return None
+            params = [a.arg for a in la.args]
+            ok = True
+
+            class _B(ast.NodeTransformer):
+                def visit_Call(self, node: ast.Call) -> ast.AST:
+                    nonlocal ok
+                    self.generic_visit(node)
+                    if isinstance(node.func, ast.Name) and node.func.id == name:
+                        if node.keywords or len(node.args) != len(params) or not all(_simple(a) for a in node.args):
+                            ok = False
+                            return node
+                        body = copy.deepcopy(value.body)
+                        inner_bound = {n.id for n in ast.walk(body) if isinstance(n, ast.Name) and isinstance(n.ctx, ast.Store)}
+                        if inner_bound:
+                            ok = False
+                            return node
+                        # simultaneous substitution (an argument may be spelled like another parameter)
+                        mapping = dict(zip(params, node.args))
+
+                        class _P(ast.NodeTransformer):
+                            def visit_Name(self, n2: ast.Name) -> ast.AST:
+                                if n2.id in mapping and isinstance(n2.ctx, ast.Load):
+                                    return _loc(copy.deepcopy(mapping[n2.id]), n2)
+                                return n2
+
+                            def visit_Lambda(self, n2: ast.Lambda) -> ast.AST:
+                                nonlocal ok
+                                ok = False
+                                return n2
+
+                        return _loc(_P().visit(body), node)
+                    return node
+
+            out = [_B().visit(x) for x in out]
+            if not ok or any(isinstance(n, ast.Name) and n.id == name and isinstance(n.ctx, ast.Load) for x in out for n in ast.walk(x)):
+                return None
+            return out
+        if not (_simple(value) or (isinstance(value, (ast.Tuple, ast.List)) and all(_simple(y) for y in value.elts))):
+            return None
+        return [_Subst(name, value).visit(x) for x in out]
+
+    def _dict_dispatch(self, s: ast.stmt, rest: List[ast.stmt]) -> Optional[Tuple[List[ast.stmt], int]]:
+        """`f = TABLE.get(k)` ; `if f is not None: B(f)`  ->  `if k == K1: B(V1)` ; `if k == K2: B(V2)` ...
+        (TABLE a dict display with literal keys that nothing writes to; an entry that is None has no branch).
+        Also the mirrored guard: `f = TABLE.get(k)` ; `if f is None: A(jumps)` ; R(f) (jumps)."""
+        if not (isinstance(s, ast.Assign) and len(s.targets) == 1 and isinstance(s.targets[0], ast.Name) and rest and isinstance(rest[0], ast.If)):
+            return None
+        v = s.value
+        if not (isinstance(v, ast.Call) and isinstance(v.func, ast.Attribute) and v.func.attr == "get" and not v.keywords and 1 <= len(v.args) <= 2):  # noqa: PLR2004
+            return None
+        if len(v.args) == 2 and not (isinstance(v.args[1], ast.Constant) and v.args[1].value is None):  # noqa: PLR2004
+            return None
+        table = self._dict_table_of(v.func.value)
+        key = v.args[0]
+        if table is None or not isinstance(key, ast.Name):
+            return None
+        x = s.targets[0].id
+        facts = NameFacts(self.fn)
+        if facts.stores.get(x, 0) != 1 or x in facts.nested_refs or x == key.id:
+            return None
+        guard = rest[0]
+        t = guard.test
+        if not (isinstance(t, ast.Compare) and len(t.ops) == 1 and isinstance(t.ops[0], (ast.Is, ast.IsNot)) and isinstance(t.left, ast.Name)
+                and t.left.id == x and _is_const(t.comparators[0], None)):
+            return None
+        present_first = isinstance(t.ops[0], ast.IsNot)
+        if present_first:
+            if guard.orelse:
+                return None
+            branch, consumed, tail = guard.body, 1, []  # type: List[ast.stmt], int, List[ast.stmt]
+        else:
+            # `if f is None: A` ; R  - A leaves, R uses f and leaves
+            if guard.orelse or not jumps(guard.body) or not jumps(rest[1:]):
+                return None
+            branch, consumed, tail = rest[1:], len(rest), list(guard.body)
+        used_elsewhere = facts.loads.get(x, 0) - sum(1 for b in branch for n in ast.walk(b) if isinstance(n, ast.Name) and n.id == x and isinstance(n.ctx, ast.Load)) - 1
+        if used_elsewhere != 0:
+            return None
+        if any(isinstance(n, ast.Name) and n.id == key.id and isinstance(n.ctx, ast.Store) for b in branch for n in ast.walk(b)):
+            return None
+        out: List[ast.stmt] = []
+        for k_, val in zip(table.keys, table.values):
+            if isinstance(val, ast.Constant) and val.value is None:
+                continue
+            body = self._apply_entry(branch, x, val)
+            if body is None:
+                return None
+            test = _loc(ast.Compare(left=ast.Name(id=key.id, ctx=ast.Load()), ops=[ast.Eq()], comparators=[copy.deepcopy(k_)]), s)
+            out.append(_loc(ast.If(test=test, body=body, orelse=[]), s))
+        if not jumps(branch) and len(out) > 1:
+            # at most one key matches: an if / elif chain
+            chain: List[ast.stmt] = []
+            for node in reversed(out):
+                node.orelse = chain  # type: ignore[attr-defined]
+                chain = [node]
+            out = chain
+        return out + tail, consumed
+
     # -- S12
     def _class_table(self, it: ast.expr) -> Optional[ast.expr]:
         cls = getattr(self, "current_class", None)
@@ -1697,7 +1949,11 @@ class Canon:
         elif self._class_table(it) is not None:
             it = self._class_table(it)  # type: ignore[assignment]
             from_class = True
-        if isinstance(it, (ast.Tuple, ast.List)) and any(isinstance(n, ast.Break) for b in s.body for n in ast.walk(b)):
+        searches = any(isinstance(n, ast.Break) for b in s.body for n in ast.walk(b)) or (
+            # `for typ, names in TABLE: if isinstance(obj, typ): return t in names` - the first row that matches ends it
+            len(s.body) == 1 and isinstance(s.body[0], ast.If) and not s.body[0].orelse and jumps(s.body[0].body)
+            and not any(isinstance(n, ast.Continue) for n in ast.walk(s.body[0])))
+        if isinstance(it, (ast.Tuple, ast.List)) and searches:
             found = self._search_loop(s, it)
             if found is not None:
                 return self._method_items(found) if from_class else found
